@@ -51,6 +51,8 @@ def cls_of(e):
     # two rebuildable classes that share their name ("Error") but live in different modules
     if type(e).__name__ == "Error":
         return {"shutil": 3, "configparser": 4}.get(type(e).__module__, 98)
+    if type(e).__name__ == "NmSub":       # a subclass of NonMemoizedException is just as non-memoized
+        return 2
     return CLS.get(type(e).__name__, 99)
 
 
@@ -189,6 +191,9 @@ def render(prog, modname):
          "    def __init__(self, a, b):",
          "        super().__init__(a, b)",
          "",
+         "class NmSub(NonMemoizedException):",
+         "    pass",
+         "",
          "vres = ResourceFunction(lambda url: ResourceHandle('vres', url, '1'))",
          ""]
     for f, d in sorted(prog["fns"].items()):
@@ -223,7 +228,7 @@ def render(prog, modname):
                 L.append(ind + "s += progs.sum_slots(_rs)")
         m, r, cls, msg = d["raise"]
         if m:
-            exc = {0: 'ValueError("zq%dzq")' % msg, 1: 'Opaque("zq%dzq", 1)' % msg, 2: 'NonMemoizedException("zq%dzq")' % msg,
+            exc = {0: 'ValueError("zq%dzq")' % msg, 1: 'Opaque("zq%dzq", 1)' % msg, 2: '%s("zq%dzq")' % ("NmSub" if msg % 2 else "NonMemoizedException", msg),
                    3: 'shutil.Error("zq%dzq")' % msg, 4: 'configparser.Error("zq%dzq")' % msg}[cls]
             L += ["    if a >= 0 and a %% %d == %d:" % (m, r), "        raise %s" % exc]
         L.append("    return s + %d" % d["const"])
